@@ -130,6 +130,8 @@ pub fn install_hooks() {
         release: hk_release,
         point: hk_point,
     });
+    // the parser crate has its own (point-only) hook table
+    hulc::verif_hooks::install(hulc::verif_hooks::Hooks { point: hk_point });
 }
 
 impl State {
